@@ -143,6 +143,7 @@ class Canon:
             self.beta_reduce(body)
             self.assign_forms(body)
             self.match_ints(body)
+            self.if_assign(body)
             self.while_loops(body)
             self.fold_loops(body)
             self.collect_loops(body)
@@ -522,6 +523,70 @@ class Canon:
             n["r"] = rhs
             n["canon"] = "x = x op e"
             self.stats["assign_forms"] += 1
+
+    # ------------------------------------------------------------------ P12
+    def if_assign(self, body):
+        """`x = if c { s..; a } else { t..; b };` (a branch with statements)  ->  `if c { s..; x = a; } else { t..; x = b; }`;
+        `let x = if ..` likewise with the declaration split off.  Branches without statements stay if-expressions."""
+        for blk in [n for n in _walk(body) if n.get("k") == "Block"]:
+            out = []
+            ch = False
+            for st in blk.get("stmts", []):
+                tgt_mk = None
+                rhs = None
+                if st.get("k") in ("Semi", "Expr"):
+                    e = _strip(st.get("e") or {})
+                    if e.get("k") == "Assign" and _strip(e["r"]).get("k") == "If" and self._pure(e["l"]):
+                        rhs = _strip(e["r"])
+                        lhs = e["l"]
+                        tgt_mk = lambda sp, lhs=lhs: copy.deepcopy(lhs)
+                elif st.get("k") == "Let" and st.get("init") is not None and st["pat"].get("k") == "Bind" and _strip(st["init"]).get("k") == "If":
+                    rhs = _strip(st["init"])
+                    pb = st["pat"]
+                    tgt_mk = lambda sp, pb=pb: {"k": "Local", "v": pb["v"], "name": pb.get("name"), "id": self._id(), "ty": pb.get("ty"), "sp": list(sp)}
+                if rhs is None or rhs.get("else") is None:
+                    out.append(st)
+                    continue
+                # collect the branches of the if / else-if chain
+                leaves = []
+
+                def collect(n):
+                    th, el = n["then"], _strip(n["else"])
+                    leaves.append((n, "then", th))
+                    if el.get("k") == "If" and el.get("else") is not None:
+                        collect(el)
+                    else:
+                        leaves.append((n, "else", n["else"]))
+                collect(rhs)
+                if not any(b.get("k") == "Block" and b.get("stmts") for _, _, b in leaves):
+                    out.append(st)
+                    continue
+                if any(not (b.get("k") == "Block" and b.get("expr") is not None) and not (b.get("k") != "Block") for _, _, b in leaves):
+                    out.append(st)
+                    continue
+                for owner, key, b in leaves:
+                    if b.get("k") == "Block":
+                        val = b["expr"]
+                        sp = val.get("sp") or b.get("sp") or [0, 0, 0, 0]
+                        asg = {"k": "Assign", "l": tgt_mk(sp), "r": val, "id": self._id(), "ty": "()", "sp": list(sp)}
+                        b["stmts"] = list(b.get("stmts", [])) + [{"k": "Semi", "e": asg, "sp": list(sp)}]
+                        del b["expr"]
+                        b["ty"] = "()"
+                    else:
+                        sp = b.get("sp") or [0, 0, 0, 0]
+                        asg = {"k": "Assign", "l": tgt_mk(sp), "r": b, "id": self._id(), "ty": "()", "sp": list(sp)}
+                        owner[key] = {"k": "Block", "stmts": [{"k": "Semi", "e": asg, "sp": list(sp)}], "id": self._id(), "ty": "()", "sp": list(sp)}
+                    n_ = owner
+                    n_["ty"] = "()"
+                ssp = st.get("sp") or [0, 0, 0, 0]
+                if st.get("k") == "Let":
+                    decl = {"k": "Let", "pat": dict(st["pat"], mut=True), "sp": [ssp[0], ssp[1], ssp[0], ssp[1] + 0.0001], "canon": "if-assign"}
+                    out.append(decl)
+                out.append({"k": "Expr", "e": rhs, "sp": list(rhs.get("sp") or ssp)})
+                ch = True
+            if ch:
+                blk["stmts"] = out
+                self.stats["if_assign"] = self.stats.get("if_assign", 0) + 1
 
     # ------------------------------------------------------------------ P11
     SOME = "std::prelude::v1::Some"
@@ -983,7 +1048,52 @@ class Canon:
     def collect_loops(self, body):
         """`let v = SRC.map(|p| e).collect();` (v a Vec)  ->  `let mut v = Vec::new(); for p in SRC { v.push(e) }`
         (the for loop is then rewritten by P3).  Only as the initialiser of a plain `let`."""
+        def is_chain(c):
+            if c.get("k") != "MethodCall" or c.get("name") != "collect" or c.get("args") or not str(c.get("ty", "")).startswith("std::vec::Vec<"):
+                return False
+            m_ = _strip(c["recv"])
+            if m_.get("k") != "MethodCall":
+                return False
+            if m_.get("name") == "map" and len(m_.get("args", [])) == 1 and m_.get("fn") == "std::iter::Iterator::map":
+                cl_ = _strip(m_["args"][0])
+                return cl_.get("k") == "Closure" and len(cl_.get("params", [])) == 1 and not any(n.get("k") in ("Ret", "Try") for n in _walk(cl_["body"]))
+            return m_.get("name") in ("copied", "cloned") and not m_.get("args")
+
         for blk in [n for n in _walk(body) if n.get("k") == "Block"]:
+            # a chain that is an operand of a statement (e.g. the argument of Vector::create) is first given a `let` of its own
+            stmts1 = []
+            items = list(blk.get("stmts", []))
+            if blk.get("expr") is not None:
+                items.append({"k": "Expr", "e": blk["expr"], "_tail": True, "sp": blk["expr"].get("sp")})
+            for st in items:
+                e_ = st.get("init") if st.get("k") == "Let" else st.get("e")
+                if isinstance(e_, dict):
+                    direct = _strip(e_) if st.get("k") == "Let" and st.get("pat", {}).get("k") == "Bind" else None
+                    stack = [e_]
+                    while stack:
+                        x = stack.pop()
+                        if x.get("k") in ("Closure", "For", "While", "Loop", "If", "Match") or (x.get("k") == "Block" and (x.get("stmts") or x.get("m"))):
+                            continue
+                        if x.get("k") == "Binary" and x.get("op") in ("&&", "||"):
+                            continue
+                        if x is not direct and is_chain(x):
+                            self.fresh += 1
+                            v = self.fresh
+                            ssp = st.get("sp") or x.get("sp") or [0, 0, 0, 0]
+                            let = {"k": "Let", "pat": {"k": "Bind", "v": v, "name": "__coll%d" % v, "mut": False, "byref": False, "ty": x.get("ty")},
+                                   "init": dict(x), "sp": [ssp[0], ssp[1] - 0.4, ssp[0], ssp[1] - 0.35], "canon": "hoisted-collect"}
+                            keep = {kk: x.get(kk) for kk in ("ty", "sp", "adj")}
+                            x.clear()
+                            x.update({"k": "Local", "v": v, "name": "__coll%d" % v, "id": self._id()})
+                            for kk, vv in keep.items():
+                                if vv is not None:
+                                    x[kk] = vv
+                            stmts1.append(let)
+                            continue
+                        stack.extend(_kids(x))
+                if not st.get("_tail"):
+                    stmts1.append(st)
+            blk["stmts"] = stmts1
             out = []
             changed = False
             for st in blk.get("stmts", []):
@@ -991,19 +1101,21 @@ class Canon:
                 if st.get("k") != "Let" or st.get("init") is None or st["pat"].get("k") != "Bind":
                     continue
                 c = _strip(st["init"])
-                if c.get("k") != "MethodCall" or c.get("name") != "collect" or c.get("args"):
-                    continue
-                if not str(c.get("ty", "")).startswith("std::vec::Vec<"):
+                if not is_chain(c):
                     continue
                 m = _strip(c["recv"])
-                if m.get("k") != "MethodCall" or m.get("name") != "map" or len(m.get("args", [])) != 1 or m.get("fn") != "std::iter::Iterator::map":
-                    continue
-                cl = _strip(m["args"][0])
-                if cl.get("k") != "Closure" or len(cl.get("params", [])) != 1:
-                    continue
-                if any(n.get("k") in ("Ret", "Try") for n in _walk(cl["body"])):
-                    continue
-                src = m["recv"]
+                if m.get("name") in ("copied", "cloned"):
+                    # X.iter().copied().collect(): push each element
+                    self.fresh += 1
+                    pv = self.fresh
+                    ety = str(c.get("ty", ""))[len("std::vec::Vec<"):-1]
+                    csp0 = m.get("sp") or [0, 0, 0, 0]
+                    cl = {"k": "Closure", "params": [{"k": "Ref", "p": {"k": "Bind", "v": pv, "name": "__e", "mut": False, "byref": False, "ty": ety}, "ty": "&" + ety}],
+                          "body": {"k": "Local", "v": pv, "name": "__e", "id": self._id(), "ty": ety, "sp": list(csp0)}, "sp": list(csp0)}
+                    src = m["recv"]
+                else:
+                    cl = _strip(m["args"][0])
+                    src = m["recv"]
                 sp = st.get("sp") or [0, 0, 0, 0]
                 csp = c.get("sp") or sp
                 v = st["pat"]["v"]
